@@ -185,7 +185,12 @@ func checkCategoricalHistories(t *vlib.T, init []float64, depth int) {
 		for k := 0; k < K; k++ {
 			// the source is part of the value: replay the history on an object with this answer
 			ck := replay(distuv.NewCategorical(init, newScript(K, k)))
-			v := ck.Rand()
+			var v float64
+			if pv := catch(func() { v = ck.Rand() }); pv != nil {
+				nf++
+				r.fail("Categorical history: Rand", arg, "Rand panics with weights %v: %v", model, pv)
+				return
+			}
 			if v != math.Floor(v) || v < 0 || int(v) >= n || model[int(v)] == 0 {
 				nf++
 				r.fail("Categorical history: Rand in support", arg, "Rand=%v with weights %v", v, model)
